@@ -1,5 +1,6 @@
 import BM.Driver.Codec
 import BM.Spec.Oracles
+import BM.CssDefault
 import Std.Data.HashMap
 namespace BM.Driver
 open BM BM.Html BM.Spec
@@ -8,7 +9,7 @@ structure State where
   policies : Std.HashMap Nat Policy := {}
 
 /-- css.GetDefaultHandler twin (filled in by BM.CssHandlers once modelled) -/
-def dfltHandler : Bytes → Bytes → Bool := fun _ _ => false
+def dfltHandler : Bytes → Bytes → Bool := defaultHandler
 
 /-! per-property projections of an output: a correspondence mismatch is attributed to a
     property only if the part of the output that property speaks about differs -/
@@ -67,6 +68,12 @@ def handleLine (st : State) (line : String) : State × String :=
       let r := encTokens (tokenize b)
       (st, if r == impl then "ok" else "DIFF " ++ r)
     | none => (st, "bad-hex")
+  | ["hdl", prop, val, impl] =>
+    match unhexField prop, unhexField val with
+    | some pr, some v =>
+      let r := if defaultHandler pr v then "1" else "0"
+      (st, if r == impl then "ok" else "DIFF " ++ r)
+    | _, _ => (st, "bad-hdl")
   | ["policy", pid, ops, dump] =>
     match pid.toNat?, parseOps ops, unhexField dump with
     | some pid, some ops, some dump =>
